@@ -739,4 +739,122 @@ example : NXL ([.block (b "a") [.text (b "x")]] ++ [.ifN (.var (b "y")) [.text (
 example : renderSrc (b "{% block a %}x{% endblock %}p{% if y %}z{% endif %}") [(b "y", .bool true)] = .ok (b "xpz") :=
   isOk_eq (by decide +kernel)
 
+/-! ## a stray block-end tag at the top level (C04: nothing outside delimiters is dropped)
+
+  `parseOuter` returns at a tag that closes a block (`endif`, `else`, `elseif`, `endfor`, `endblock`, `endmacro`,
+  `endapply`, `endspaceless`, `endverbatim`) so that the tag's own parser can go on. At the top level no block is open:
+  `Parser.Parse` (`parseTemplate`) rejects whatever is left in front of the EOF token, instead of dropping the rest
+  of the template without a word. -/
+
+/-- the error of `parseTemplate` for a stray end tag -/
+def strayErr : Err := .error .parse [] "unexpected tag without an open block"
+
+/-- If the outer parse of the token stream of `src` stops in front of anything but the EOF token (a stray end tag),
+    `parseTemplate src` is the parse error `strayErr` — in particular it is never `.ok`. -/
+theorem C04_stray_end_tag_rejected (src : Bytes) (ts : List Token) (nodes : List Node) (rest : List Token)
+    (ht : tokenize src = .ok ts) (hp : parseOuter (4 * ts.length + 16) ts = .ok (nodes, rest))
+    (hs : strayEnd rest = true) :
+    parseTemplate src = .error strayErr ∧ ∀ ns, parseTemplate src ≠ .ok ns := by
+  have h : parseTemplate src = .error strayErr := by
+    unfold parseTemplate
+    rw [ht]
+    simp only
+    rw [hp]
+    simp only [ok_bind, hs, if_true]
+    rfl
+  exact ⟨h, fun ns hn => by rw [h] at hn; cases hn⟩
+
+/-- An accepted template was read to the end: the outer parse that produced its nodes consumed every token up to
+    the EOF token (nothing, or the EOF token, is left). -/
+theorem C04_accepted_template_is_read_to_the_end (src : Bytes) (nodes : List Node)
+    (h : parseTemplate src = .ok nodes) :
+    ∃ ts rest, tokenize src = .ok ts ∧ parseOuter (4 * ts.length + 16) ts = .ok (nodes, rest) ∧
+      (rest = [] ∨ ∃ t r, rest = t :: r ∧ t.kind = EOF) := by
+  unfold parseTemplate at h
+  cases ht : tokenize src with
+  | error e => rw [ht] at h; cases h
+  | ok ts =>
+    rw [ht] at h
+    simp only at h
+    cases hp : parseOuter (4 * ts.length + 16) ts with
+    | error e => rw [hp] at h; cases h
+    | ok x =>
+      obtain ⟨ns, rest⟩ := x
+      rw [hp] at h
+      simp only [ok_bind] at h
+      by_cases hs : strayEnd rest = true
+      · simp only [hs, if_true] at h; cases h
+      · simp only [hs, Bool.false_eq_true, if_false] at h
+        by_cases hd : hasDup (blockNamesL ns) = true
+        · simp only [hd, if_true] at h; cases h
+        · simp only [hd, Bool.false_eq_true, if_false] at h
+          cases h
+          refine ⟨ts, rest, rfl, hp, ?_⟩
+          cases rest with
+          | nil => exact .inl rfl
+          | cons t r =>
+            refine .inr ⟨t, r, rfl, ?_⟩
+            simpa [strayEnd] using hs
+
+/-- evaluation helper: the parse fails with exactly the stray-end-tag parse error -/
+def isStrayErr {α} : R α → Bool
+  | .error (.error .parse [] m) => m == "unexpected tag without an open block"
+  | _ => false
+theorem isStrayErr_eq {α} {r : R α} (h : isStrayErr r = true) : r = .error strayErr := by
+  unfold isStrayErr at h
+  split at h
+  · simp only [beq_iff_eq] at h; rw [h]; rfl
+  · cases h
+
+/-- Every block-closing tag at the top level of a template is a parse error (the unchanged tree rendered `a`). -/
+theorem C04_stray_end_tag_examples :
+    parseTemplate (b "a{% endif %}b") = .error strayErr ∧
+    parseTemplate (b "a{% else %}b") = .error strayErr ∧
+    parseTemplate (b "a{% endfor %}b") = .error strayErr ∧
+    parseTemplate (b "a{% endblock %}b") = .error strayErr ∧
+    parseTemplate (b "a{% elseif x %}b") = .error strayErr ∧
+    parseTemplate (b "a{% endmacro %}b") = .error strayErr ∧
+    parseTemplate (b "a{% endapply %}b") = .error strayErr ∧
+    parseTemplate (b "a{% endspaceless %}b") = .error strayErr ∧
+    parseTemplate (b "a{% endverbatim %}b") = .error strayErr ∧
+    parseTemplate (b "{%- endif -%}") = .error strayErr ∧
+    parseTemplate (b "{% if t %}a{% endif %}b{% endif %}c") = .error strayErr :=
+  ⟨isStrayErr_eq (by decide +kernel), isStrayErr_eq (by decide +kernel), isStrayErr_eq (by decide +kernel),
+   isStrayErr_eq (by decide +kernel), isStrayErr_eq (by decide +kernel), isStrayErr_eq (by decide +kernel),
+   isStrayErr_eq (by decide +kernel), isStrayErr_eq (by decide +kernel), isStrayErr_eq (by decide +kernel),
+   isStrayErr_eq (by decide +kernel), isStrayErr_eq (by decide +kernel)⟩
+
+-- the hypotheses of `C04_stray_end_tag_rejected` on a concrete template: the outer parse stops in front of `endif`
+example : ∃ ts nodes rest, tokenize (b "a{% endif %}b") = .ok ts ∧
+    parseOuter (4 * ts.length + 16) ts = .ok (nodes, rest) ∧ strayEnd rest = true :=
+  ⟨[⟨TEXT, b "a"⟩, ⟨BLOCK_START, []⟩, ⟨NAME, b "endif"⟩, ⟨BLOCK_END, []⟩, ⟨TEXT, b "b"⟩, ⟨EOF, []⟩],
+   [.text (b "a")], [⟨BLOCK_START, []⟩, ⟨NAME, b "endif"⟩, ⟨BLOCK_END, []⟩, ⟨TEXT, b "b"⟩, ⟨EOF, []⟩],
+   by with_unfolding_all rfl, by with_unfolding_all rfl, by decide +kernel⟩
+
+-- a block that is closed where it was opened still parses, and the text behind it is kept
+example : parseTemplate (b "{% if t %}a{% endif %}b") = .ok [.ifN (.var (b "t")) [.text (b "a")] [], .text (b "b")] := by
+  with_unfolding_all rfl
+example : renderSrc (b "{% if t %}a{% endif %}b") [(b "t", .bool true)] = .ok (b "ab") := isOk_eq (by decide +kernel)
+
+-- the padding theorem (C14) on a template whose outer parse leaves a stray end tag needs no extra hypothesis:
+-- both sides are the same parse error
+example (vars : List (Bytes × Val)) :
+    renderSrc (b "pad " ++ b "{% endif %}b") vars = .error strayErr ∧ renderSrc (b "{% endif %}b") vars = .error strayErr := by
+  have hs : parseTemplate (b "{% endif %}b") = .error strayErr := isStrayErr_eq (by decide +kernel)
+  have h2 : renderSrc (b "{% endif %}b") vars = .error strayErr := by unfold renderSrc; rw [hs]; rfl
+  refine ⟨?_, h2⟩
+  rw [C14_padding_render (by decide +kernel) (by decide +kernel) (by decide +kernel) vars
+    (fun nodes h => by rw [hs] at h; cases h), h2]
+  rfl
+
+/-- A stray end tag inside an included template is a parse error of THAT template: the template set does not load
+    (`envOfSources = none`, the engine never gets to render `main`), while the same set with the tag removed renders. -/
+theorem C04_stray_end_tag_in_included_template :
+    parseTemplate (b "x{% endif %}y") = .error strayErr ∧
+    parseTemplate (b "[{% include 'p' %}]") = .ok [.text (b "["), .include (.str (b "p")) [] [] false false false, .text (b "]")] ∧
+    (Inh.envOfSources [("main", "[{% include 'p' %}]"), ("p", "x{% endif %}y")]).isNone = true ∧
+    Inh.renderSources [("main", "[{% include 'p' %}]"), ("p", "xy")] "main" = some (b "[xy]") :=
+  ⟨isStrayErr_eq (by decide +kernel), by with_unfolding_all rfl, by decide +kernel, by decide +kernel⟩
+
+
 end Twig
